@@ -150,7 +150,10 @@ class P:
                 if re.fullmatch(r'\d+', f):
                     a = '%s.%s' % (a, f)
                     continue
-                if f in ('into_spec', 'from_spec', 'view', 'spec_index'):
+                if f == 'into_spec' and self.peek() == '(':
+                    self.args()                   # every `V: Into<X>` is instantiated at X itself: the conversion is the identity
+                    continue
+                if f in ('from_spec', 'view', 'spec_index'):
                     raise Untranslatable('spec-trait call .%s' % f)
                 if self.peek() == '(':
                     args = self.args()
